@@ -35,6 +35,10 @@ RULE = ("corpus: one witness per recorded finding; adversarial: 40 hand-written 
         "names: a project-defined serde struct / enum named like a std or ecosystem type, a TypeScript global, a primitive look-alike or a tool-internal name "
         "(43 names x struct|enum x 2 modes), unmapped, at every site kind; derives: 13 legal spellings of the serde derive (path-qualified, one trait only, "
         "split over attributes, spacing, trailing commas, multi-line) on a struct and an enum used as parameter, return, field, payload (x 2 modes); "
+        "reuse: ONE CommandAnalyzer and ONE generator (library API, harness c02-reuse) taken through 2-3 analyse+generate rounds on edited sources - payload struct "
+        "renamed / removed, event removed and re-added with another payload, a type added to an existing file and used from a new file, a field of a new type, "
+        "addition then removal, a file removed, another project (and back), the same project again - 11 histories on each of 15 (quick) / 123 (thorough) base "
+        "projects x 2 modes, closedness and duplicate-freedom judged after EVERY round; "
         "history: 60 (quick) / 600 (thorough) two-generation histories into one output directory (event removed / "
         "added / unrelated project / same project; same or other mode), the second run is judged: the files it wrote (marker technique) against the "
         "model of the second project, index.ts against exactly those files; random: 600 (quick) / 6000 (thorough) projgen graph projects with events, channels, enums, type mappings, 70% clean contexts / 30% wild, x 2 modes; "
@@ -198,6 +202,74 @@ def evaluate(jobs, reps=1, history=None):
     return outs
 
 
+# ----------------------------------------------------------------------------- one analyzer reused over several rounds
+
+def evaluate_reuse(hists, modes=("none", "zod")):
+    """hists: (label, [case per round]). One CommandAnalyzer and one generator (harness c02-reuse) go through
+    all rounds; the oracle judges the four files of EVERY round. The model makes one claim about reuse:
+    everything a fresh analysis of the round's sources exports (per module) is exported by the reused
+    objects too (they accumulate)."""
+    import shutil
+    jobs = [(label, rounds, m) for label, rounds in hists for m in modes]
+    boxes = [vlib.Sandbox("c02r") for _ in jobs]
+    try:
+        cases = [{"id": i, "dir": b.root, "mode": m,
+                  "rounds": [{"files": pg.render_project(G.render_ready(r)), "mappings": (r.get("config") or {}).get("typeMappings", {})} for r in rounds]}
+                 for i, ((label, rounds, m), b) in enumerate(zip(jobs, boxes))]
+        obs = vlib.run_harness("c02-reuse", cases, per_case_timeout=60)
+    finally:
+        for b in boxes:
+            shutil.rmtree(b.root, ignore_errors=True)
+    judge_in, model_in, index = [], [], []
+    for i, ((label, rounds, m), o) in enumerate(zip(jobs, obs)):
+        for k, r in enumerate(rounds):
+            fs = (o.get("rounds") or [{}] * len(rounds))[k].get("files", {}) if "panic" not in o else {}
+            judge_in.append(sx([[fs[n]] if n in fs else [] for n in FILES]))
+            model_in.append(sx(G.model_sx(r, m)))
+            index.append((i, k))
+    judged = vlib.run_runner("c02-judge", judge_in)
+    modeled = vlib.run_runner("c02-model", model_in)
+    per = {}
+    for key, j, mo in zip(index, judged, modeled):
+        per[key] = (j, mo)
+    outs = []
+    for i, ((label, rounds, m), o) in enumerate(zip(jobs, obs)):
+        c = {"label": label, "mode": m, "rounds": [{"files": r["files"], "config": r.get("config", {})} for r in rounds]}
+        if "panic" in o:
+            outs.append(Outcome(c, False, False, detail={"impl": "PANIC " + str(o["panic"])}))
+            continue
+        ok = corr = True
+        kf = None
+        rdet = []
+        seen_maps = set()
+        for k in range(len(rounds)):
+            mk = set(((rounds[k].get("config") or {}).get("typeMappings") or {}).keys())
+            if seen_maps - mk:
+                kf = "C02-9"       # a mapping an earlier round relied on is gone: stale definitions render unmapped
+            seen_maps |= mk
+            j, mo = per[(i, k)]
+            if (j and j[0] == "runner-error") or (mo and mo[0] == "runner-error"):
+                raise vlib.BuildError("runner: %s %s" % (j[:2], mo[:2]))
+            wf, cw, broken = (x == "true" for x in mo[0:3])
+            if not (wf and cw):
+                raise AssertionError("reuse round outside the premise: %s round %d" % (label, k))
+            kfs = [x == "true" for x in mo[3]]
+            kf = kf or next((KF_ORDER[n] for n, b in enumerate(kfs) if b), None)
+            irep, mrep = canon_report(j), canon_report(mo[5])
+            st = o["rounds"][k].get("status")
+            ok_k = st == "ok" and irep["closed"] and irep["nodup"]
+            # wrappers and listeners accumulate; types.ts does not (a type redefined under its old name keeps the
+            # definition of the first analysis, so dependencies of the new definition may be missing - stale, closed)
+            sup = st == "ok" and all(b[0] != "parsed" or (a[0] == "parsed" and set(b[1]) <= set(a[1]))
+                                     for a, b in zip(irep["files"][1:3], mrep["files"][1:3]))
+            ok &= ok_k
+            corr &= sup
+            rdet.append({"round": k, "status": st, "closed": irep["closed"], "nodup": irep["nodup"], "unresolved": irep["unresolved"],
+                         "dups": irep["dups"], "wrappers_and_listeners_superset_of_fresh_model": sup, "commands": o["rounds"][k].get("commands")})
+        outs.append(Outcome(c, corr, ok, kf=kf, detail={"rounds": rdet}, nontrivial=True))
+    return outs
+
+
 # ----------------------------------------------------------------------------- add_types_prefix, small scope
 
 def atp_types(depth):
@@ -243,6 +315,8 @@ def corpus_jobs():
     jobs = []
     for e in vlib.load_known_findings("C02"):
         w = e["witness"]
+        if "rounds" in w:
+            continue
         jobs.append(("kf:" + e["id"], {"files": w["files"], "config": w.get("config", {})}, w["mode"]))
     cdir = os.path.join(vlib.VERIF, "corpus", "C02")
     if os.path.isdir(cdir):
@@ -274,6 +348,11 @@ def run(rep):
     rep.add("layout", evaluate(both(G.layout_cases())))
     rep.add("names", evaluate(both(G.special_name_cases())))
     rep.add("derives", evaluate(both(G.derive_spelling_cases())))
+    kf_reuse = [("kf:" + e["id"], [{"files": r["files"], "config": r.get("config", {})} for r in e["witness"]["rounds"]], e["witness"]["mode"])
+                for e in vlib.load_known_findings("C02") if "rounds" in e["witness"]]
+    for label, rounds, mode in kf_reuse:
+        rep.add("corpus", evaluate_reuse([(label, rounds)], modes=(mode,)), sample_count=1)
+    rep.add("reuse", evaluate_reuse(G.reuse_histories(rng, 6 if rep.tier == "quick" else 60)))
     hp = G.history_pairs(rng, 60 if rep.tier == "quick" else 600)
     hist = {label: (a, m1, b, m2) for label, a, m1, b, m2 in hp}
     rep.add("history", evaluate([(label, b, m2) for label, a, m1, b, m2 in hp], history=hist))
@@ -310,6 +389,9 @@ def replay(rep, payload):
     items = payload.get("disagreeing_cases") or [payload]
     for it in items:
         c = it["case"]
+        if it.get("stream") == "reuse" or "rounds" in c:
+            rep.add("reuse", evaluate_reuse([(c.get("label", "replay"), [{"files": r["files"], "config": r.get("config", {})} for r in c["rounds"]])], modes=(c["mode"],)))
+            continue
         if it.get("stream") == "atp":
             cases = [{"id": 0, "rust": c["rust"]}]
             obs = vlib.run_harness("c02-atp", cases)
